@@ -2,7 +2,7 @@
     vertex (Z-type, 6 edges) generator and every face (X-type, 4 edges, three orientations) generator
     share an even number of qubits.  Vertex/vertex and face/face pairs are of the same Pauli type.
     The 3-D statement is reduced to the 2-D overlap lemma of Toric2D.v in the plane of the face. *)
-From Coq Require Import ZArith List Bool Lia ZifyBool.
+From Coq Require Import ZArith List Bool Lia ZifyBool Permutation.
 From PQ Require Import Toric2D.
 Import ListNotations.
 Local Open Scope Z_scope.
@@ -242,3 +242,87 @@ Fixpoint pt3ll_eqb (a b : list (list pt3)) : bool :=
 Definition table_matches (Lx Ly Lz : Z) (qs ss : list pt3) (supports : list (list pt3)) : bool :=
   pt3l_eqb (qubits Lx Ly Lz) qs && pt3l_eqb (stab_coords Lx Ly Lz) ss
   && pt3ll_eqb (map (support Lx Ly Lz) (stab_coords Lx Ly Lz)) supports.
+
+(** ** symmetry of the overlap parity on duplicate-free supports, and commutation of ALL generators *)
+Lemma pt3_eqb_eq a b : pt3_eqb a b = true <-> a = b.
+Proof. destruct a as [[ax ay] az], b as [[bx by_] bz]. unfold pt3_eqb. rewrite !andb_true_iff, !Z.eqb_eq. split; [intros [[-> ->] ->]; reflexivity|intros E; injection E; auto]. Qed.
+Lemma mem3_In q l : mem3 q l = true <-> In q l.
+Proof. unfold mem3. rewrite existsb_exists. split; [intros [x [Hx E]]; apply pt3_eqb_eq in E; subst; assumption|intros H; exists q; split; [assumption|apply pt3_eqb_eq; reflexivity]]. Qed.
+
+Lemma fold_xorb_odd (l : list bool) acc : fold_left xorb l acc = xorb acc (Nat.odd (length (filter (fun b => b) l))).
+Proof.
+  revert acc; induction l as [|b l IH]; intros acc; cbn [fold_left filter length]; [now rewrite xorb_false_r|].
+  rewrite IH. destruct b; cbn [length]; [|now rewrite xorb_false_r]. rewrite Nat.odd_succ, <- Nat.negb_odd. destruct acc, (Nat.odd _); reflexivity.
+Qed.
+Lemma filter_map_length {A} (p : A -> bool) l : length (filter (fun b => b) (map p l)) = length (filter p l).
+Proof. induction l as [|a l IH]; [reflexivity|]. cbn. destruct (p a); cbn; rewrite IH; reflexivity. Qed.
+Lemma overlap3_odd a b : overlap3 a b = Nat.odd (length (filter (fun q => mem3 q b) a)).
+Proof. unfold overlap3. rewrite fold_xorb_odd, filter_map_length. apply xorb_false_l. Qed.
+
+Theorem overlap3_sym a b : NoDup a -> NoDup b -> overlap3 a b = overlap3 b a.
+Proof.
+  intros Ha Hb. rewrite !overlap3_odd. f_equal. apply Permutation_length. apply NoDup_Permutation.
+  - apply NoDup_filter; assumption.
+  - apply NoDup_filter; assumption.
+  - intros q. rewrite !filter_In, !mem3_In. tauto.
+Qed.
+
+Lemma wrap_distinct h a : 2 <= h -> 0 <= a < 2 * h ->
+  (a - 1) mod (2 * h) <> a /\ (a + 1) mod (2 * h) <> a /\ (a - 1) mod (2 * h) <> (a + 1) mod (2 * h).
+Proof. intros Hh Ha. rewrite mod_pred, mod_succ by lia. destruct (a =? 0) eqn:E1, (a =? 2 * h - 1) eqn:E2; lia. Qed.
+
+Ltac nodup3 :=
+  repeat (apply NoDup_cons;
+          [cbn [In]; let HH := fresh "HH" in intros HH;
+           repeat (destruct HH as [HH|HH];
+                   [apply pair_equal_spec in HH; let H2 := fresh in destruct HH as [HH H2]; apply pair_equal_spec in HH; lia|]);
+           exact HH|]);
+  apply NoDup_nil.
+
+Section NoDupSupports.
+  Variables Lx Ly Lz x y z : Z.
+  Hypothesis HLx : 2 <= Lx. Hypothesis HLy : 2 <= Ly. Hypothesis HLz : 2 <= Lz.
+  Hypothesis Rx : 0 <= x < 2 * Lx. Hypothesis Ry : 0 <= y < 2 * Ly. Hypothesis Rz : 0 <= z < 2 * Lz.
+
+  Ltac dist1 W := let m := fresh "m" in let n := fresh "n" in
+    match type of W with ?t <> _ /\ ?u <> _ /\ _ => set (m := t) in *; set (n := u) in *; clearbody m n; destruct W as (? & ? & ?) end.
+  Ltac dists :=
+    let W := fresh "W" in
+    pose proof (wrap_distinct Lx x HLx Rx) as W; dist1 W; pose proof (wrap_distinct Ly y HLy Ry) as W; dist1 W;
+    pose proof (wrap_distinct Lz z HLz Rz) as W; dist1 W.
+
+  Lemma nodup_vertex : x mod 2 = 0 -> y mod 2 = 0 -> z mod 2 = 0 -> NoDup (support Lx Ly Lz (x, y, z)).
+  Proof.
+    intros Px Py Pz. rewrite support_vertex by assumption. rewrite (V_unfold Lx Ly Lz x y z) by lia.
+    dists. clear Px Py Pz. nodup3.
+  Qed.
+  Lemma nodup_face_xy : x mod 2 = 1 -> y mod 2 = 1 -> z mod 2 = 0 -> NoDup (support Lx Ly Lz (x, y, z)).
+  Proof. intros Px Py Pz. rewrite support_face_xy by assumption. dists. clear Px Py Pz. nodup3. Qed.
+  Lemma nodup_face_yz : x mod 2 = 0 -> y mod 2 = 1 -> z mod 2 = 1 -> NoDup (support Lx Ly Lz (x, y, z)).
+  Proof. intros Px Py Pz. rewrite support_face_yz by assumption. dists. clear Px Py Pz. nodup3. Qed.
+  Lemma nodup_face_xz : x mod 2 = 1 -> y mod 2 = 0 -> z mod 2 = 1 -> NoDup (support Lx Ly Lz (x, y, z)).
+  Proof. intros Px Py Pz. rewrite support_face_xz by assumption. dists. clear Px Py Pz. nodup3. Qed.
+End NoDupSupports.
+
+Theorem support_nodup Lx Ly Lz s : 2 <= Lx -> 2 <= Ly -> 2 <= Lz -> In s (stab_coords Lx Ly Lz) -> NoDup (support Lx Ly Lz s).
+Proof.
+  intros HLx HLy HLz Hs. destruct s as [[x y] z]. destruct (stab_cases _ _ _ _ _ _ Hs) as (R1 & R2 & R3 & P).
+  destruct P as [(A & B & C)|[(A & B & C)|[(A & B & C)|(A & B & C)]]].
+  - apply nodup_vertex; assumption.
+  - apply nodup_face_xy; assumption.
+  - apply nodup_face_yz; assumption.
+  - apply nodup_face_xz; assumption.
+Qed.
+
+Definition ops_commute3 (za : bool) (sa : list pt3) (zb : bool) (sb : list pt3) : bool :=
+  if Bool.eqb za zb then true else negb (overlap3 sa sb).
+
+Theorem toric3d_stabilizers_commute Lx Ly Lz s s' :
+  2 <= Lx -> 2 <= Ly -> 2 <= Lz -> In s (stab_coords Lx Ly Lz) -> In s' (stab_coords Lx Ly Lz) ->
+  ops_commute3 (is_vertex s) (support Lx Ly Lz s) (is_vertex s') (support Lx Ly Lz s') = true.
+Proof.
+  intros HLx HLy HLz Hs Hs'. unfold ops_commute3.
+  destruct (is_vertex s) eqn:E, (is_vertex s') eqn:E'; cbn [Bool.eqb]; try reflexivity; apply negb_true_iff.
+  - apply toric3d_vertex_face_commute; assumption.
+  - rewrite overlap3_sym by (apply support_nodup; assumption). apply toric3d_vertex_face_commute; assumption.
+Qed.
